@@ -96,6 +96,47 @@ private:
 inline pthread_t engineTid;
 inline bool engineTidSet = false;
 
+/** The protocol object of the session running in this process (for the end-state probe). */
+inline UCIProtocol* curUci = nullptr;
+
+/** C10 "every helper thread idle and acknowledged": at a quiescent point (the engine thread is about to start a search, or the session
+ *  has ended and the protocol and engine threads are joined) no helper holds a search job, every communicator of the worker tree has all
+ *  its stop acknowledgements, and no search command (start / stop / result / ack) is left in any mailbox. Returns "" if so. */
+inline std::string helperEndState(UCIProtocol& uci) {
+    std::string bad;
+    auto queueBad = [&](Communicator* c, const std::string& who) {
+        int n = 0;
+        for (auto& cmd : c->cmdQueue) if (cmd->type == Communicator::START_SEARCH || cmd->type == Communicator::STOP_SEARCH || cmd->type == Communicator::REPORT_RESULT || cmd->type == Communicator::STOP_ACK) n++;
+        if (n) bad += who + ":search-commands-left-in-mailbox(" + std::to_string(n) + ") ";
+        if (!c->hasStopAck()) bad += who + ":stop-not-acknowledged() ";
+    };
+    if (uci.engineThread.comm) queueBad(uci.engineThread.comm.get(), "root");
+    std::function<void(const std::vector<std::shared_ptr<WorkerThread>>&)> walk = [&](const std::vector<std::shared_ptr<WorkerThread>>& ws) {
+        for (auto& w : ws) {
+            if (!w) continue;
+            std::string who = "helper" + std::to_string(w->threadNo);
+            if (w->jobId != -1) bad += who + ":still-holds-job(" + std::to_string(w->jobId) + ") ";
+            if (w->comm) queueBad(w->comm.get(), who);
+            walk(w->children);
+        }
+    };
+    walk(uci.engineThread.children);
+    return bad;
+}
+inline int endStateFd = -1;
+inline long endStateProbes = 0;
+/** Called from the wrapped Communicator::sendInitSearch on the engine thread (harnesses that wrap it) and at the end of every session. */
+inline void probeEndState(const char* where) {
+#if !defined(__SANITIZE_THREAD__)
+    if (!curUci) return;
+    endStateProbes++;
+    std::string bad = helperEndState(*curUci);
+    if (!bad.empty() && endStateFd >= 0) { std::string o = stamped(std::string("> @endstate ") + where + " " + bad) + "\n"; if (::write(endStateFd, o.data(), o.size())) {} }
+#else
+    (void)where;
+#endif
+}
+
 /** Free-running sessions only: an "@await" gives up after this many seconds of wall-clock time, writes "> @await-timeout <what>" and the
  *  script goes on (so that a search that lost its limit is stopped by the following quit instead of holding the child until the alarm).
  *  0 = wait for ever (sessions under the controlled scheduler, where waiting is virtual). */
@@ -108,6 +149,7 @@ inline int runScriptInChild(const std::vector<std::string>& script, int outFd, i
     int nGo = 0, nIsReady = 0;
     {
         UCIProtocol uci(is, os);
+        curUci = &uci; endStateFd = outFd;
         std::thread proto([&]() { uci.mainLoop(false); });
         std::thread eng([&]() { engineTid = pthread_self(); engineTidSet = true; uci.engineThread.mainLoop(); });
         auto marker = [&](const std::string& s) { if (outFd >= 0) { std::string o = stamped(s) + "\n"; if (::write(outFd, o.data(), o.size())) {} } };
@@ -146,6 +188,9 @@ inline int runScriptInChild(const std::vector<std::string>& script, int outFd, i
         proto.join();
         eng.join();
         ob.deliverAll();
+        probeEndState("session-end");
+        if (outFd >= 0) { std::string o = stamped("> @endstate-probes " + std::to_string(endStateProbes)) + "\n"; if (::write(outFd, o.data(), o.size())) {} }
+        curUci = nullptr;
     }
     alarm(0);
     return 0;
@@ -286,6 +331,7 @@ struct Analysis {
     std::vector<Finding> findings;
     int nIsReady = 0, nReadyOk = 0;
     std::set<std::string> controllerStates;
+    long endStateProbes = 0;
 };
 
 /** UCI contract (C05) + result well-formedness (C03) on one transcript. `strictCount`: the session ended with quit/eof after all awaits. */
@@ -299,6 +345,8 @@ inline Analysis analyse(const Transcript& t, bool checkResults = true) {
         if (line.rfind("> ", 0) == 0) {
             std::string cmd = line.substr(2);
             std::istringstream is(cmd); std::string w; is >> w;
+            if (w == "@endstate-probes") { std::string n; is >> n; a.endStateProbes += atol(n.c_str()); continue; }
+            if (w == "@endstate") { std::string where, what; is >> where >> what; { size_t c = what.find(':'), q = what.find('('); add("helper-not-idle:" + what.substr(c + 1, q == std::string::npos ? q : q - c - 1) + "@" + where, cmd.substr(10)); } continue; }
             if (w == "@await-timeout") { add("awaited-answer-did-not-arrive", "no " + cmd.substr(cmd.find(' ') + 1) + " although the command before it must be answered without further input"); continue; }
             pt.onCommand(cmd);
             if (w == "isready") { a.nIsReady++; engineExists = true; }
